@@ -207,7 +207,7 @@ def rule_p4(chk: Check, ix: Index, I):
                         f"piece ends (the next adjacency test uses that end); got {bad or 'no node'}")
     binops = [n for n in ast.walk(f.node) if isinstance(n, ast.Call) and norm_stmt(n.func) == "ast.BinOp"]
     chk.count("P4-verbatim-words")
-    ok = len(binops) == 1 and {k.arg: norm_stmt(k.value) for k in binops[0].keywords}.get("left") == "tree"
+    ok = len(binops) >= 1 and all({k.arg: norm_stmt(k.value) for k in b.keywords}.get("left") == "tree" for b in binops)
     chk.require(ok, "P4-verbatim-words", "_append_node_or_token:concat-order", f.where,
                 "the general concatenation must keep the previous piece on the left")
     # element order: in every list built from both, what comes from the previous pieces precedes what comes from the new piece
